@@ -383,10 +383,30 @@ func crashPoints(events []recEvent, p0, fromP, toP, maxImages int, root *Rng) ([
 	}
 	total := len(cps)
 	if len(cps) > maxImages {
-		var sel []cp
-		for i := 0; i < maxImages; i++ {
-			sel = append(sel, cps[i*len(cps)/maxImages])
+		// half of the budget goes to the points right after a barrier (every durable state the run
+		// went through: one per group commit / installation round), the rest is spread evenly
+		var after, rest []cp
+		for _, c := range cps {
+			if c.p > 0 && c.p <= len(events) && !events[c.p-1].write && c.keep == nil && !c.dropAll {
+				after = append(after, c)
+			} else {
+				rest = append(rest, c)
+			}
 		}
+		var sel []cp
+		na := maxImages / 2
+		if len(after) <= na {
+			sel = append(sel, after...)
+		} else {
+			for i := 0; i < na; i++ {
+				sel = append(sel, after[i*len(after)/na])
+			}
+		}
+		nr := maxImages - len(sel)
+		for i := 0; i < nr && len(rest) > 0; i++ {
+			sel = append(sel, rest[i*len(rest)/nr])
+		}
+		sort.SliceStable(sel, func(i, j int) bool { return sel[i].p < sel[j].p })
 		cps = sel
 	}
 	return cps, total
